@@ -48,6 +48,18 @@ CHECKS = {
          "spec/Framing.tla enumerates every partition of an N-row sequence into frames (N = 5..8 quick, ..11 thorough; with empty frames); every partition of every TLC-generated row sequence is re-framed by /verif's codec, every second frame carrying metadata, "
          "and parsed flat and grouped by both integrations against the TLC-computed denotation (one sink per frame, content per frame, metadata visible). Grouped serialization of sink sequences through one shared stream: one frame per non-empty sink, judged by TLC.",
          "TLC exhaustive enumeration of frame partitions (spec/Framing.tla) replayed into the real parsers; TLC trace judging of grouped serializer output"),
+ "C08": ("model_checking", "6 C08",
+         "spec/PyHint.tla (byte layout of PyFraming): TLC checks exhaustively that for every (mode, first-frame length 0..300 and the varint boundaries, first-row length) the code's truth table answers the mode the stream was written in; "
+         "every distinct 3-byte header is fed to the real delimited_jelly_hint; real streams from the real writers in both modes, with options rows and frames of every small length including 10, must be detected and parse to equal results.",
+         "TLC exhaustive model checking of spec/PyHint.tla + replay of every header into delimited_jelly_hint + real both-mode streams"),
+ "C09": ("model_checking", "6 C09",
+         "TLC explores every schedule of short reads (1,2,3,5,rest) of spec/PyFraming.tla over concrete small streams (invariants ChunkingIrrelevant, ClassifiedRight); every schedule prefix the model explored is replayed on a non-seekable raw source in front of the real parsers on real streams, "
+         "continued with reads of 1, 7 or unlimited bytes; buffered seekable sources (BytesIO, BufferedReader, gzip) are compared with the all-at-once parse.",
+         "TLC model checking of spec/PyFraming.tla over all read schedules + replay of the schedules into the real parsers"),
+ "C10": ("fault_enumeration", "6 C10",
+         "Every byte offset of every real delimited stream is a cut; the streaming parser is drained item by item and each record (frame extents, items per frame, cut, yielded, outcome) is judged by TLC (spec/TraceFraming.tla: prefix, completeness, nothing from an undelivered frame); "
+         "TLC also closes spec/PyFraming.tla for every cut of small concrete streams over all read schedules (PrefixOnly, NeverMore).",
+         "byte-level exhaustive truncation per stream, TLC trace judging (TraceFraming) + TLC model checking of PyFraming cuts"),
  "C13": ("model_checking", "6 C13",
          "spec/PyHeader.tla states the reader contract for headers (forbidden physical/logical pairs, name table >= 8, tables <= 4096, version <= 2, strict flat/grouped gates, non-strict independence of the logical type); TLC enumerates the complete lattice "
          "pt x 8 logical types x table sizes {7,8,4096,4097} x versions x {flat,grouped} x strict with the expected outcome of each point; each point becomes bytes (by /verif's codec, also for pairs pyjelly's writer refuses) and goes through both integrations' parsers. "
